@@ -88,6 +88,7 @@ def run_haplotagphase(
                     out_file=output,
                     tag=tag,
                     mav=mav,
+                    keep_phasing_of_skipped_records=True,
                 )
             )
         except (OSError, VcfError) as e:
